@@ -85,14 +85,36 @@ func c02BindingNames(rng *Rng, n int) (names, family []string, bucket string) {
 	}
 	pool := append([]string{}, family...)
 	rng.Shuffle(len(pool), func(i, j int) { pool[i], pool[j] = pool[j], pool[i] })
-	// half of the time a pair equal under case folding is forced (the relation between two names
-	// matters, not the value of one of them), in either order
-	if rng.Chance(50) {
-		for i := 1; i < len(pool); i++ {
-			if strings.EqualFold(pool[0], pool[i]) {
-				pool[1], pool[i] = pool[i], pool[1]
-				break
+	// the relation between two names matters, not the value of one of them: most of the time a pair
+	// standing in a chosen relation is forced into the hook, in either order
+	var rel func(a, b string) bool
+	switch r := rng.Intn(100); {
+	case r < 45:
+		rel = strings.EqualFold
+	case r < 60:
+		rel = func(a, b string) bool { return strings.TrimSpace(a) == strings.TrimSpace(b) }
+	case r < 75:
+		rel = func(a, b string) bool { return strings.HasPrefix(a, b) || strings.HasPrefix(b, a) }
+	}
+	if rel != nil {
+		var pairs [][2]int
+		for i := range pool {
+			for j := range pool {
+				if i != j && rel(pool[i], pool[j]) {
+					pairs = append(pairs, [2]int{i, j})
+				}
 			}
+		}
+		if len(pairs) > 0 {
+			pr := pairs[rng.Intn(len(pairs))]
+			a, b := pool[pr[0]], pool[pr[1]]
+			rest := []string{a, b}
+			for _, s := range pool {
+				if s != a && s != b {
+					rest = append(rest, s)
+				}
+			}
+			pool = rest
 		}
 	}
 	names = pool[:n]
